@@ -53,12 +53,12 @@ def run_job(job):
     pair.close()
     res["ops"] = len(tr.ops)
     lines = [l for (l, _, _) in tr.ops]
-    for (idx, fields) in tr.disagreements:
-        line = tr.ops[idx][0]
-        ep = gen.parse_call_line(line)["ep"] if line.startswith("call") else None
-        res["disagreements"].append(dict(index=idx, fields=fields, ep=ep, op=line[:600],
-                                         impl=tr.ops[idx][1][:1500], model=(tr.ops[idx][2] or "")[:1500],
-                                         prefix=lines[:idx + 1]))
+    for d in tr.disagreements:
+        idx = d["index"]
+        rec = dict(d)
+        rec.update(op=tr.ops[idx][0][:600], impl=tr.ops[idx][1][:1500], model=(tr.ops[idx][2] or "")[:1500],
+                   prefix=lines[:idx + 1])
+        res["disagreements"].append(rec)
     for (ep, sched, ok, same) in tr.chunk_results:
         if not same or ok is False:
             res["chunk_mismatch"].append(dict(ep=ep, schedule=sched, completed=ok, same_storage=same, prefix=lines))
@@ -144,7 +144,7 @@ def check(pid, tier, seed):
     other_dis = 0
     for r in results:
         for d in r["disagreements"]:
-            if props.relevant(pid, d["ep"], d["fields"]):
+            if props.relevant(pid, d):
                 rel_dis.append((r, d))
             else:
                 other_dis += 1
@@ -200,7 +200,7 @@ def check(pid, tier, seed):
         r, d = rel_dis[0]
         path = write_replay(pid, f"correspondence-{r['job'][0]}-{r['job'][1]}-{r['job'][2]}",
                             {"property": pid, "kind": "correspondence",
-                             "what": f"model and implementation disagree on {d['fields']} at step {d['index']} ({d['ep'] or 'dump'})",
+                             "what": f"model and implementation disagree on {d['fields']} at step {d['index']} ({d['kind']}, endpoint {d.get('ep')}); implementation says: {d.get('impl_msg', '')!r}, model says: {d.get('model_msg', '')!r}",
                              "theorems_no_longer_tied_to_the_code": [o[0] for o in obligations],
                              "job": r["job"], "failing_step": d["index"], "impl_answer": d["impl"],
                              "model_answer": d["model"], "ops": d["prefix"]})
@@ -256,12 +256,12 @@ def run_corpus(files):
         lines = [l for (l, _, _) in tr.ops]
         res = dict(job=("corpus", os.path.basename(f), 0), ops=len(tr.ops), disagreements=[], violations={},
                    chunk_mismatch=[], cov={}, error=None, sample=None, nontrivial=None)
-        for (idx, fields) in tr.disagreements:
-            line = tr.ops[idx][0]
-            ep = gen.parse_call_line(line)["ep"] if line.startswith("call") else None
-            res["disagreements"].append(dict(index=idx, fields=fields, ep=ep, op=line[:600],
-                                             impl=tr.ops[idx][1][:1500], model=(tr.ops[idx][2] or "")[:1500],
-                                             prefix=lines[:idx + 1]))
+        for d in tr.disagreements:
+            idx = d["index"]
+            rec = dict(d)
+            rec.update(op=tr.ops[idx][0][:600], impl=tr.ops[idx][1][:1500], model=(tr.ops[idx][2] or "")[:1500],
+                       prefix=lines[:idx + 1])
+            res["disagreements"].append(rec)
         v = monitors.View(tr)
         for pid, ms in monitors.MONITORS.items():
             for m in ms:
@@ -338,7 +338,7 @@ def replay(path):
         print("IMPL ", a[:1200])
         print("MODEL", (b or "")[:1200])
     if tr.disagreements:
-        print("first disagreement at step", tr.disagreements[0])
+        print("first disagreement:", {k: v for k, v in tr.disagreements[0].items()})
     v = monitors.View(tr)
     for pid, ms in monitors.MONITORS.items():
         for m in ms:
